@@ -64,14 +64,14 @@ def serialize(source, command, params, force_trailing=False, blanks=1, lead=0, t
     out += command
     for k, p in enumerate(params):
         last = k == len(params) - 1
-        need = p == "" or p[0] == ":" or " " in p
+        need = p == "" or p[0] == ":" or any(ch.isspace() for ch in p)  # the server splits at any white space
         if need and not last:
             raise ValueError("middle parameter not representable: %r" % (p,))
         if last and (need or force_trailing):
             out += sp + ":" + p
         else:
             out += sp + p
-    if tail and not (params and (params[-1] == "" or " " in params[-1] or force_trailing
+    if tail and not (params and (params[-1] == "" or any(ch.isspace() for ch in params[-1]) or force_trailing
                                  or params[-1][0] == ":")):
         out += " " * tail
     return out
